@@ -213,12 +213,12 @@ func runSrvCase(o *Oracle, c *SrvCase, rep *Report) {
 	// several clients at once: every response still belongs to its own request
 	if len(c.Batches) > 0 {
 		var wg sync.WaitGroup
-		bad := make([]string, 4)
-		for g := 0; g < 4; g++ {
+		bad := make([]string, 8)
+		for g := 0; g < 8; g++ {
 			wg.Add(1)
 			go func(g int) {
 				defer wg.Done()
-				for k := 0; k < 6; k++ {
+				for k := 0; k < 25; k++ {
 					bi := (g*5 + k) % len(c.Batches)
 					req := &proto.QueryRequest{}
 					var parts []string
@@ -303,9 +303,8 @@ func runC13(rep *Report, r *Rng, tier string) {
 				}
 			}
 			for ci := range d.Cols {
-				if ci%2 == 0 {
-					d.Cols[ci].Style = "eqsign"
-				}
+				d.Cols[ci].Style = "eqsign"
+				d.Cols[ci].NVals = 5
 			}
 			d.OddNames = true
 		}
@@ -600,6 +599,41 @@ func runC14(rep *Report, r *Rng, tier string) {
 			srv.stop()
 			srv = nil
 			srv = startServer(path, true, false)
+		}
+	}
+	// in-process: the very first grouped queries on a freshly opened index, issued by 8 goroutines at once
+	// (what 8 simultaneous requests do to a server that has just started), many fresh indexes
+	rounds := 150
+	if tier == "thorough" {
+		rounds = 1500
+	}
+	wantProbe := o.Ask("idx q " + (&QCase{E: probe.E, GB: []string{hx("a"), hx("b")}}).Toks())
+	for round := 0; round < rounds && rep.NViol() < 6; round++ {
+		fresh, _, err := openIdx(path, round%2 == 0, int64(-1+(round%3)*5000))
+		if err != nil {
+			break
+		}
+		var wg sync.WaitGroup
+		out := make([]string, 8)
+		start := make(chan struct{})
+		for g := 0; g < 8; g++ {
+			wg.Add(1)
+			go func(g int) {
+				defer wg.Done()
+				<-start
+				pq := qcaseToProto(&QCase{E: probe.E, GB: []string{hx("a"), hx("b")}}, 0)
+				out[g] = safeInProcess(fresh, pq)
+			}(g)
+		}
+		close(start)
+		wg.Wait()
+		fresh.Close()
+		rep.Count("fresh-index-bursts")
+		for _, s := range out {
+			if s != wantProbe {
+				rep.Violate(Violation{Kind: "schedule", Signature: "C14:concurrent-answer-differs", What: "8 simultaneous first grouped requests on a freshly opened index", Expected: trunc(wantProbe, 300), Actual: trunc(s, 300), Case: map[string]any{"fresh-burst": round}})
+				break
+			}
 		}
 	}
 	rep.OracleCalls = o.n
